@@ -89,6 +89,7 @@ func VerifH_c16_saver() {
 	VerifSetup()
 	vFsReset()
 	disp := vNewServer()
+	disp.dss.basePath = vFsPath("data") // snapshot files go to the model / a scratch directory
 	cs := vNewClientOn(disp)
 	vCmd(cs, "SET", "k", "v")
 	vCmd(cs, "SELECT", "1")
